@@ -33,4 +33,15 @@ PROPS = {
     "C04": dict(
         lean_core=["Props.C04"], lean_code=[], gen_funcs=[], harness="c04",
         assumptions=["histories: parents before children, distinct ids, height = parent's + 1 (WFArrivals)"]),
+    "C17": dict(
+        lean_core=["Props.C17"], lean_code=[], gen_funcs=[], harness="c17",
+        assumptions=["node hash has 32-byte output (true of SHA-256); no leaf/inner domain separation — stated as the LeafIsInner disjunct"]),
+    "C18": dict(
+        lean_core=["Props.C18"], lean_code=[], gen_funcs=[], harness="c18",
+        assumptions=["recorded blocks of the real network: conformance test, not a theorem",
+                     "the first sentence of the property is read as the verdict of validate_block_in_coinstate"]),
+    "C06": dict(
+        lean_core=["Props.C06"], lean_code=[], gen_funcs=[], harness="c06",
+        assumptions=["partial: flips of a continuation bit of the VLQ height are covered by execution only (see Props/C06.lean)",
+                     "collisions of sha256d / blake2 / scrypt appear as explicit disjuncts, nothing is assumed of them"]),
 }
